@@ -141,6 +141,10 @@ class _SocksMachine(object):
             (version, method) = struct.unpack('BB', reply)
             if version == 5 and method in [0x00, 0x02]:
                 self.version_reply(method)
+                # whatever arrived in the same segment behind the
+                # method reply is (the start of) the request reply
+                if self._data:
+                    self.got_data()
             else:
                 if version != 5:
                     self.version_error(SocksError(
